@@ -4,7 +4,7 @@
    fresh, uncancelled context). *)
 From Util Require Import Common.Base Common.ListLemmas RefCount.Model RefCount.Spec RefCount.Proofs RefCount.ProofsC08 RefCount.ProofsC08b
   RefCount.ProofsC09 RefCount.ProofsC10 RefCount.ProofsC10a RefCount.ProofsC10b RefCount.ProofsCodec RefCount.ProofsMon RefCount.ProofsMon2 RefCount.ProofsMon3
-  RefCount.ProofsMon4 RefCount.ProofsMon5 RefCount.ProofsMon6 RefCount.ProofsMon7 RefCount.ProofsMonG RefCount.ProofsMon8 RefCount.ProofsMon11 RefCount.ProofsMon12.
+  RefCount.ProofsMon4 RefCount.ProofsMon5 RefCount.ProofsMon6 RefCount.ProofsMon7 RefCount.ProofsMonG RefCount.ProofsMon8 RefCount.ProofsMon11 RefCount.ProofsMon12 RefCount.ProofsMon19.
 Open Scope nat_scope.
 
 Definition is_cb (p : cpc) : bool := match p with CAccCb _ => true | _ => false end.
@@ -95,6 +95,9 @@ Proof.
   - unfold fire_section. destruct (nth_error (conss s) c0) as [x|] eqn:Ex; [|exact H]. destruct (ww_firepc x) as [[|]|]; try exact H.
     apply (Q_remove_ref _ (invoke_QA i sn0 n0 a0)). rewrite conss_setc. apply QA_set; [exact H|]. intros ->. fold (getc s i). now rewrite (getc_x s i x Ex).
   - apply (QA_acf i sn0 n0 a0 (conss s)); [|exact H]. apply map_acf_nth. apply (cfd_cb_return acf); reflexivity.
+  - destruct (watch_step_spec s c0) as [->|[x [y [Hx [-> Hy]]]]]; [exact H|]. wsplit Hy. rewrite conss_setc.
+    destruct (getc_nth_error s c0 x Hx) as [Eg Hl]. unfold QA in *. destruct (Nat.eq_dec i c0) as [->|Hn]; [|now rewrite nth_set_nth_other].
+    rewrite nth_set_nth_same by exact Hl. fold (getc s c0) in H. rewrite Eg in H. unfold acont in *. now rewrite Wasnap, Wares, Waval, Waerr, Wanonce.
 Qed.
 
 (* ------------------------------------------------------------------ *)
@@ -155,7 +158,7 @@ Proof.
     assert (E : cpcv (getc (setc s c0 {| ck := ck x; cref := cref x; ccanc := true; cpcv := cpcv x; cw_res := cw_res x; ww_res := ww_res x;
                             ww_nonce := ww_nonce x; ww_prom := ww_prom x; ww_once := ww_once x; ww_fired := ww_fired x; ww_firepc := ww_firepc x;
                             ac_val := ac_val x; ac_err := ac_err x; ac_res := ac_res x; ac_nonce := ac_nonce x; ac_snap := ac_snap x;
-                            ac_cbcanc := ac_cbcanc x; ac_cbres := ac_cbres x |}) i) = cpcv (getc s i)).
+                            ac_cbcanc := ac_cbcanc x; ac_cbres := ac_cbres x; ac_wpark := ac_wpark x; ac_wstale := ac_wstale x |}) i) = cpcv (getc s i)).
     { destruct (getc_nth_error s c0 x Ex) as [Eg Hl]. rewrite getc_setc by exact Hl. destruct (Nat.eqb_spec i c0) as [->|]; [now rewrite Eg | reflexivity]. }
     rewrite E. split; [auto | intros H; split; [exact H | intros; discriminate]].
   - unfold fire_section. destruct (nth_error (conss s) c0) as [x|] eqn:Ex; [|split; [auto | intros H; split; [exact H | intros; discriminate]]].
@@ -170,14 +173,19 @@ Proof.
       unfold cb_return in H. destruct (nth_error (conss s) c0) as [x|] eqn:Ex.
       2:{ apply nth_error_None in Ex. lia. }
       destruct (getc_nth_error s c0 x Ex) as [Eg Hl].
-      assert (AR : forall e', is_cb (cpcv (getc (acc_ret s c0 x e') c0)) = false).
-      { intros e'. destruct (acc_ret_pc s c0 x x e' Ex) as [E|E]; rewrite E; reflexivity. }
+      assert (AR : forall e', is_cb (cpcv (getc (acc_ret s c0 (cb_done x) e') c0)) = false).
+      { intros e'. destruct (acc_ret_pc s c0 x (cb_done x) e' Ex) as [E|E]; rewrite E; reflexivity. }
       rewrite Eg in Hk. rewrite Hk in H.
       destruct (cpcv x) eqn:Ep; try (rewrite Eg, Ep in H; discriminate H).
       destruct (ccanc x); [rewrite AR in H; discriminate|].
       match type of H with is_cb (cpcv (getc (if ?b then _ else _) _)) = true => destruct b end; [rewrite AR in H; discriminate|].
       rewrite getc_setc, Nat.eqb_refl in H by exact Hl. discriminate H.
     + rewrite cb_return_other by exact Hn0. split; [auto | intros H; split; [exact H | intros r0 E; apply Hn0; now inversion E]].
+  - (* a watcher's step *)
+    assert (E : cpcv (getc (watch_step s c0) i) = cpcv (getc s i)).
+    { destruct (watch_step_spec s c0) as [->|[x [y [Hx [-> Hy]]]]]; [reflexivity|]. wsplit Hy. destruct (getc_nth_error s c0 x Hx) as [Eg Hl].
+      rewrite getc_setc by exact Hl. destruct (Nat.eqb_spec i c0) as [->|]; [now rewrite Eg | reflexivity]. }
+    rewrite E. split; [auto | intros H; split; [exact H | intros; discriminate]].
 Qed.
 
 (* ------------------------------------------------------------------ *)
@@ -244,4 +252,13 @@ Proof.
     + pose proof (access_loop_step sX i _ Hx Hk (or_intror (conj Ep En))) as L. cbv zeta in L.
       destruct (negb (Nat.eqb (ac_err (getc s i)) 0)); [destruct L as [L|L]; rewrite L in H; discriminate|].
       destruct (ac_res (getc s i)); [tauto|]. destruct (ccanc (getc s i)); [destruct L as [L|L]; rewrite L in H; discriminate | destruct L as [L _]; rewrite L in H; discriminate].
+Qed.
+
+(* ... and its watcher goroutine has not been woken *)
+Lemma settle_fresh_cb_wpark s i : i < length (conss s) -> is_cb (cpcv (getc s i)) = false -> wp_ok (getc s i) ->
+  ac_wpark (getc (settle s) i) = false.
+Proof.
+  intros Hi Hp Hw. destruct (settle_getc s i Hi) as [sX [A [B C]]]. rewrite C.
+  pose proof (map_nth_getc ac_wpark sX (cons_step sX i) i ((cfd_cons_step ac_wpark) ltac:(reflexivity) ltac:(reflexivity) sX i)) as E.
+  rewrite E, A. destruct (ac_wpark (getc s i)) eqn:Ew; [|reflexivity]. destruct (Hw Ew) as [v Ev]. rewrite Ev in Hp. discriminate Hp.
 Qed.
